@@ -144,7 +144,10 @@ func (e *c17Env) run(a c17Action) string {
 	return res.Out
 }
 
-func c17Actions(reduced bool) []c17Action {
+// c17Actions: level 0 = every combination (576), 1 = reduced (configurations varied together, 72),
+// 2 = tiny (two opposite configurations per input, 18).
+func c17Actions(level int) []c17Action {
+	reduced := level >= 1
 	var as []c17Action
 	for i := range c17Inputs {
 		for _, opt := range []bool{true, false} {
@@ -157,6 +160,9 @@ func c17Actions(reduced bool) []c17Action {
 						for fid := 0; fid < 2; fid++ {
 							for ml := 0; ml < 2; ml++ {
 								if reduced && fid != ml {
+									continue
+								}
+								if level >= 2 && !(opt == (f == 1) && f == fid) {
 									continue
 								}
 								as = append(as, c17Action{i, opt, f, s, c, fid, ml})
@@ -180,19 +186,19 @@ func C17Worker(args []string) {
 	case "baseline":
 		env := c17NewEnv(args[1])
 		i, _ := strconv.Atoi(args[2])
-		all := c17Actions(false)
+		all := c17Actions(0)
 		b, _ := json.Marshal(env.run(all[i]))
 		fmt.Fprintf(w, "%s\n", b)
 	case "hist":
 		env := c17NewEnv(args[1])
 		depth, _ := strconv.Atoi(args[2])
-		reduced := args[3] == "1"
+		level, _ := strconv.Atoi(args[3])
 		lo, _ := strconv.Atoi(args[4])
 		hi, _ := strconv.Atoi(args[5])
 		var base map[string]string
 		bb, _ := os.ReadFile(filepath.Join(args[1], "baseline.json"))
 		json.Unmarshal(bb, &base)
-		acts := c17Actions(reduced)
+		acts := c17Actions(level)
 		cmdCopy := fmt.Sprintf("%#v", derefCmd(env.cmds))
 		swCopy := fmt.Sprintf("%v", env.sws)
 		var runs, hists, viol int64
@@ -447,7 +453,7 @@ func runC17(tier string) int {
 
 	// (2) histories: baselines from fresh processes, then enumeration in worker processes.
 	c17WriteFonts(dir)
-	all := c17Actions(false)
+	all := c17Actions(0)
 	base := map[string]string{}
 	var mu sync.Mutex
 	r.Parallel(uint64(len(all)), func(w int, i uint64) {
@@ -465,19 +471,16 @@ func runC17(tier string) int {
 	os.WriteFile(filepath.Join(dir, "baseline.json"), bb, 0o644)
 	r.Set("history_actions", len(all))
 	type hplan struct {
-		depth   int
-		reduced bool
+		depth int
+		level int
 	}
-	plans := []hplan{{2, false}, {3, true}}
+	plans := []hplan{{2, 0}, {3, 1}}
 	if tier == "thorough" {
-		plans = []hplan{{3, false}, {4, true}}
+		plans = []hplan{{2, 0}, {3, 1}, {4, 2}, {5, 2}}
 	}
 	for _, pl := range plans {
-		acts := c17Actions(pl.reduced)
-		red := "0"
-		if pl.reduced {
-			red = "1"
-		}
+		acts := c17Actions(pl.level)
+		red := fmt.Sprint(pl.level)
 		r.Parallel(uint64(len(acts)), func(w int, i uint64) {
 			out, err := exec.Command(exe, "c17worker", "hist", dir, fmt.Sprint(pl.depth), red, fmt.Sprint(i), fmt.Sprint(i+1)).Output()
 			if err != nil {
@@ -577,5 +580,5 @@ func runC17(tier string) int {
 		"'fresh process' baselines are computed by subprocesses that run exactly one compilation",
 		"context independence compares a statement's emitted section with every hoisted text / movement label replaced by the data it denotes (numbering and sharing are free, content is not)")
 	return r.Finish(r.Get("evaluations"), r.Get("nontrivial"),
-		"(1) schedules: for every corpus input (many-chunk scripts, label clashes, unknown-font errors against 2- and 3-font configs, all small 'general' programs, optimize on/off) every execution with <= d deviating map-iteration choice points (all n! orders for n <= 4, else reverse, rotations, adjacent transpositions), each run twice; (2) histories: every sequence of <= k compilations over 9 inputs x optimize x 2 font files x default font id {config default, -f} x default line length {config, -l} x 2 switch assignments x 2 command configs sharing the maps, each result compared with the same compilation as first action of a fresh process; (3) every top-level statement of a 6-statement family among every ordered selection of <= m other statements at every position; states/transitions = executions; non-trivial = a deviating schedule, a history of length >= 2 or a context with a neighbour")
+		"(1) schedules: for every corpus input (many-chunk scripts, label clashes, unknown-font errors against 2- and 3-font configs, all small 'general' programs, optimize on/off) every execution with <= d deviating map-iteration choice points (all n! orders for n <= 4, else reverse, rotations, adjacent transpositions), each run twice; (2) histories: every sequence of <= k compilations (k = 2 over all 576 actions, 3 over 72, thorough: 4 and 5 over 18) over 9 inputs x optimize x 2 font files x default font id {config default, -f} x default line length {config, -l} x 2 switch assignments x 2 command configs sharing the maps, each result compared with the same compilation as first action of a fresh process; (3) every top-level statement of a 6-statement family among every ordered selection of <= m other statements at every position; states/transitions = executions; non-trivial = a deviating schedule, a history of length >= 2 or a context with a neighbour")
 }
